@@ -27,7 +27,10 @@ import VerifModel.Base.XR
     * NaN keys: the model compares keys structurally (nan = nan).  This is what CPython
       does for the singleton `np.nan` that `_clean` returns (identity shortcut of
       `dict`/`set`/`tuple` comparison); a literal `nan` *token* in a coordinate column
-      creates a fresh NaN object per row and is outside the modelled domain.
+      creates a fresh NaN object per row and is outside the modelled domain (for the id column
+      the code then loses every row of that location but the first: known finding
+      text-nan-id-values-lost, C09 stream text.nanid).  In a lat / lon / altitude / elev column a
+      nan token is harmless (`np.isnan` → default 0) and is modelled.
 -/
 namespace VerifModel.TextInput
 
